@@ -394,7 +394,7 @@ pub fn gen_programs(seed: u64, count: u64, small: bool) -> Vec<Program> {
 		}
 		// bias towards Window / SMM / median users for the in-bounds oracle
 		let slot = if r.chance(0.35) {
-			let names = ["SMM", "MedianAbsDev", "SMA", "Past", "HighestIndex", "Conv", "LowerReversalSignal", "MAInstance"];
+			let names = ["SMM", "MedianAbsDev", "SMA", "Past", "HighestIndex", "Conv", "LowerReversalSignal", "MAInstance", "Highest", "Lowest", "LowestIndex", "HighestLowestDelta"];
 			let n = names[r.usize_below(names.len())];
 			sut::methods().iter().position(|m| m.name == n).unwrap_or(0)
 		} else {
